@@ -80,3 +80,20 @@ Fixpoint doc_eval (p : Z) (e : lexpr) : outcome Z :=
     a <- doc_eval p x ;;
     spec_exec (doc_prefix op) a 0 p
   end.
+
+(* ---- vocabulary of the pass-loop theorem (second audit) -------------------
+   [annotated p e x]: x is the IR tree of the closed expression e
+   (Model.FieldDispatch.to_expr e up to the knowledge slots) and EVERY node of
+   x carries exactly what the bottom-up dispatch computes for the corresponding
+   sub-expression: the constant, or no constant. *)
+Fixpoint ann (P : lexpr -> know -> Prop) (e : lexpr) (x : expr) : Prop :=
+  match e, x with
+  | LNum z, ENum z' k => z' = z /\ P (LNum z) k
+  | LInfix op l r, EInfix op' l' r' k => op' = op /\ ann P l l' /\ ann P r r' /\ P (LInfix op l r) k
+  | LPrefix op a, EPrefix op' a' k => op' = op /\ ann P a a' /\ P (LPrefix op a) k
+  | _, _ => False
+  end.
+
+Definition annotated (p : Z) : lexpr -> expr -> Prop :=
+  ann (fun e k => lit_dispatch p e = Ok (kval k)).
+
